@@ -88,10 +88,7 @@ Theorem C11_slice_iter_is_loads : forall t alt buf,
   len_ok buf ->
   exists l, iter_list t alt (iter_new buf) = Some l /\
             map Some l = map (load t alt buf) (range 0 (pixels_total t (buf_len buf))).
-Proof.
-  intros t alt buf H. destruct (iter_is_loads t alt (iter_new buf) (iter_new_ok buf H)) as (l & A & B & _).
-  exists l. split; [exact A|exact B].
-Qed.
+Proof. exact slice_iter_is_loads. Qed.
 
 (* nth(n) returns item n of what remains (None beyond the end, also when index + n saturates) and
    continues behind it *)
